@@ -62,9 +62,15 @@ def gen_plan(rng, index, tier):
         bp = {"rings": rng.choice([1, 2, 2, 3]) if sym != "full" else rng.choice([1, 2]), "symmetry": sym, "nfuel": rng.choice([1, 2]), "plate": rng.random() < 0.4, "plenum": rng.random() < 0.4, "sfp": False, "geom": "cartesian"}
         if sym == "full" and rng.random() < 0.4:
             bp["even"] = True
+    if rng.random() < 0.3:
+        bp["solid_plate"] = True  # a bottom block that is one solid piece (no coolant filling up the pitch)
     cfg = {"reactor": "gen", "blueprint": bp, "settings": {"nCycles": 1, "burnSteps": 1}, "actors": []}
     steps = []
     for _ in range(rng.randint(4, 30)):
+        if rng.random() < 0.06:
+            # somebody asks for cold (as-input) areas in between; no edit
+            steps.append({"op": "coldarea", "level": "block", "idx": rng.randrange(1000), "nuc": 0, "nuc2": 0, "f": 1.0, "frac": 0.1, "mass": 1.0})
+            continue
         if bp["geom"] != "cartesian" and sym != "full" and rng.random() < 0.12:
             # edge assemblies on / off: blocks on the symmetry lines become half blocks (and back);
             # the core's mass and volume must not change
@@ -285,6 +291,15 @@ class Runner:
     def apply(self, k, st):
         if st["op"] == "edge":
             return self.edge(k, st)
+        if st["op"] == "coldarea":
+            blks = c06.objects_at_level(self.r, "block")
+            b = blks[st["idx"] % len(blks)]
+            for bb in b.parent:
+                bb.clearCache()  # (what any temperature or dimension change does)
+                bb.getArea(cold=True)
+            self.probe("cold_area_queries")
+            self.sig.append(("block", "coldarea"))
+            return True
         obj = self.target(st)
         nucs = sorted(n for n, v in obj.getNumberDensities().items())
         if not nucs:
